@@ -1,8 +1,11 @@
 package interp
 
-// Symbolic floating point is not interpreted: any arithmetic on a value that
-// depends on a symbolic input is an engine error (harnesses keep such inputs
-// concrete or stub the computation).
+// Symbolic floating point is not interpreted.  A float computed from a
+// symbolic integer is an opaque value (*symf without a term): it may be
+// combined arithmetically with other floats, stored and passed on (go-f3 feeds
+// such ratios to metrics and logs only), but any comparison, branch or
+// conversion back to an integer that depends on it is an engine error, so it
+// can never influence a verdict silently.
 
 import (
 	"go/token"
@@ -18,17 +21,18 @@ func (ps *pathState) floatCmp(op string, x, y value) value {
 }
 
 func (ps *pathState) floatBinop(op token.Token, x, y value) value {
-	panic(engineError("symbolic floating-point arithmetic is not supported"))
+	switch op {
+	case token.ADD, token.SUB, token.MUL, token.QUO:
+		return &symf{}
+	}
+	panic(engineError("symbolic floating-point comparison is not supported"))
 }
 
-func (ps *pathState) floatNeg(x *symf) value {
-	panic(engineError("symbolic floating-point arithmetic is not supported"))
-}
+func (ps *pathState) floatNeg(x *symf) value { return &symf{} }
 
 func (ps *pathState) intToFloat(x *sym) value {
-	// Case-split: an integer converted to float must be concrete.
-	v := ps.concValue(x, "integer to float conversion")
-	return conv(types.Typ[types.Float64], types.Typ[types.Int64], widenInt(v))
+	ps.stubsSeen["float64(symbolic integer) => opaque float (no comparison or conversion back allowed)"] = true
+	return &symf{}
 }
 
 func widenInt(v value) value {
